@@ -69,6 +69,7 @@ type Env struct {
 	// Mangle lets a fault rewrite (or drop, by returning nil) a response frame.
 	Mangle func(c *Conn, req *hb.Request, resp []byte) []byte
 
+	FlakyDrops  [][2]int64
 	ExtraAct    func(f *Fault) bool // profile-specific fault actions
 	CutAfterAll int                 // cut every connection after this many delivered bytes
 	CancelOp    func(task, op, slot int)
